@@ -109,9 +109,11 @@ def newmark_reference(sysd, Fz, d0z, v0z, nt, nonlin=None):
     def N(u):
         if nonlin is None:
             return [z3.RealVal(0)] * nd
-        c, r1, r2, T = nonlin
-        zv = z3.RealVal(Fraction(c)) * (u[r1] - u[r2])
-        return [z3.RealVal(Fraction(float(T[i]))) * zv for i in range(nd)]
+        out = [z3.RealVal(0)] * nd
+        for c, r1, r2, T in nonlin:
+            zv = z3.RealVal(Fraction(c)) * (u[r1] - u[r2])
+            out = [out[i] + z3.RealVal(Fraction(float(T[i]))) * zv for i in range(nd)]
+        return out
 
     U = {-1: um1, 0: u0}
     for j in range(1, nt + 1):
@@ -162,11 +164,19 @@ def newmark_fn(name, sysd, nt, ic, nonlin):
             T[0, 0] = 1.0
             T[1, 0] = -1.0
             c = 75.0
+            # a second term with a different force-distribution matrix
+            T2 = np.zeros((nd, 1))
+            T2[0, 0] = 0.5
+            T2[1, 0] = 0.25
+            c2 = 40.0
 
             def func(d, j, h):
                 return np.array([c * (d[0, j] - d[1, j])], dtype=object)
-            ts.def_nonlin({"spring": (func, T)})
-            nl = (c, 0, 1, T[:, 0])
+
+            def func2(d, j, h):
+                return np.array([c2 * (d[1, j] - d[0, j])], dtype=object)
+            ts.def_nonlin({"spring": (func, T), "other": (func2, T2)})
+            nl = [(c, 0, 1, T[:, 0]), (c2, 1, 0, T2[:, 0])]
         O.NP.sym = True
         try:
             kw = dict(d0=O.sarr(d0z), v0=O.sarr(v0z)) if ic else {}
@@ -237,6 +247,8 @@ def cdf_systems():
     G["cdf-mNone"] = dict(m=None, b=bo, k=np.array([0.0, 300.0, 900.0]), h=0.01)
     G["cdf-m"] = dict(m=np.array([2.0, 3.0, 1.5]), b=bo + np.diag([0.3, 0, 0]), k=np.array([0.0, 300.0, 900.0]), h=0.01)
     G["cdf-rf"] = dict(m=np.array([2.0, 3.0, 1.5]), b=bo, k=np.array([0.0, 300.0, 4.0e5]), h=0.01, rf=[2])
+    # non-symmetric (gyroscopic-like) off-diagonal damping
+    G["cdf-nonsym"] = dict(m=np.array([1.0, 2.0, 1.5]), b=np.array([[0.4, 0.9, -0.2], [-0.6, 2.0, 0.7], [0.3, -0.5, 4.0]]), k=np.array([150.0, 300.0, 900.0]), h=0.01)
     return G
 
 
@@ -368,8 +380,10 @@ def replay_newmark(p):
     if nonlin:
         nd = n - len(sysd.get("rf") or [])
         T = np.zeros((nd, 1)); T[0, 0] = 1.0; T[1, 0] = -1.0
-        ts.def_nonlin({"spring": (lambda d, j, h: np.array([75.0 * (d[0, j] - d[1, j])]), T)})
-        nl = (75.0, 0, 1, T[:, 0])
+        T2 = np.zeros((nd, 1)); T2[0, 0] = 0.5; T2[1, 0] = 0.25
+        ts.def_nonlin({"spring": (lambda d, j, h: np.array([75.0 * (d[0, j] - d[1, j])]), T),
+                       "other": (lambda d, j, h: np.array([40.0 * (d[1, j] - d[0, j])]), T2)})
+        nl = [(75.0, 0, 1, T[:, 0]), (40.0, 1, 0, T2[:, 0])]
     Ff = np.array([[float(x) for x in r] for r in Fq])
     kw = dict(d0=np.array([float(x) for x in d0q]), v0=np.array([float(x) for x in v0q])) if ic else {}
     sol = ts.tsolve(Ff, **kw)
